@@ -41,6 +41,8 @@ class Env:
         fi = self.program.funcs[qualname]
         if fi.cls is None:
             return getattr(fi.module.native, fi.name), 'function'
+        if fi.name == '__new__':
+            return getattr(getattr(fi.module.native, fi.cls), fi.name), 'static'
         return getattr(getattr(fi.module.native, fi.cls), fi.name), fi.kind
 
 
@@ -109,7 +111,8 @@ def run_contract(envr, c, func, recv, args, kwargs, clauses, fields=None, raises
     p = envr.program
     fi = p.funcs[func]
     fields = dict(fields or {})
-    names = arg_names or [a.arg for a in fi.node.args.args][(0 if fi.kind in ('static', 'function') else 1):]
+    static = fi.kind in ('static', 'function') or fi.name == '__new__'
+    names = arg_names or [a.arg for a in fi.node.args.args][(0 if static else 1):]
     memo = {}
     old_recv = heap.snapshot(recv, memo)
     old_args = [heap.snapshot(a, memo) for a in args]
@@ -117,7 +120,7 @@ def run_contract(envr, c, func, recv, args, kwargs, clauses, fields=None, raises
     spec = CallSpec(func, old_recv, old_args, old_kwargs, {k: heap.snapshot(v, memo) for k, v in fields.items()})
     c.callspec = spec
     mark = c.alloc
-    call_args = ([] if fi.kind in ('static', 'function') else [recv]) + list(args)
+    call_args = ([] if static else [recv]) + list(args)
     result = None
     exc = None
     try:
@@ -140,7 +143,7 @@ def run_contract(envr, c, func, recv, args, kwargs, clauses, fields=None, raises
     for n, a in kwargs.items():
         rec_fields[n] = a
         rec_fields['old_' + n] = old_kwargs[n]
-    if fi.node.args.vararg is not None and arg_names is None:
+    if fi.node.args.vararg is not None:
         va = fi.node.args.vararg.arg
         rec_fields[va] = tuple(args[len(names):])
         rec_fields['old_' + va] = tuple(old_args[len(names):])
@@ -494,7 +497,7 @@ def run_item(gid, item, cfg):
             names = run.names
             if spec is not None and names is None:
                 fi = envr.program.funcs[spec.func]
-                names = [a.arg for a in fi.node.args.args][(0 if fi.kind in ('static', 'function') else 1):]
+                names = [a.arg for a in fi.node.args.args][(0 if fi.kind in ('static', 'function') or fi.name == '__new__' else 1):]
             info = {'replays': [], 'cross': None}
             for o in refuted:
                 entry = {'name': o.name, 'detail': o.detail, 'approx': bool(o.approx),
